@@ -19,7 +19,15 @@ pub static HARNESS_ERRORS: std::sync::atomic::AtomicU64 = std::sync::atomic::Ato
 
 fn main() {
     // panics inside scnr are data (exec.rs); keep stderr quiet
-    std::panic::set_hook(Box::new(|_| {}));
+    // (a panic that cannot unwind aborts the process: say where it came from first)
+    if std::env::var("VERIF_PANIC_VERBOSE").is_err() {
+        std::panic::set_hook(Box::new(|info| {
+            let msg = info.to_string();
+            if msg.contains("unsafe precondition") || msg.contains("cannot unwind") || msg.contains("destructor") {
+                eprintln!("non-unwinding panic: {msg}");
+            }
+        }));
+    }
     let args: Vec<String> = std::env::args().collect();
     if args.len() < 2 {
         eprintln!("usage: scnr-verif-harness <replay|...> ...");
